@@ -42,3 +42,30 @@ From NV Require Gen.TlsConfigGen Proofs.TlsListeners.
 Theorem C06_listeners_default_timing : TlsListeners.default_tls_timing TlsConfigGen.listener_options = true.
 Proof. exact TlsListeners.listeners_default_timing. Qed.
 Print Assumptions C06_listeners_default_timing.
+
+(* ---- tie to the code (server/tls_protocol.py TLSTransportWrapper.write, _flush_outgoing): the statements of coq/Equiv/EquivTls.v, re-checked here against the definitions regenerated
+   from /repo's working tree (coq/Gen); see DESIGN.md 11.8 ---- *)
+From Coq Require Import List NArith Bool.
+From NV Require Import Prelude.Str Model.TlsPump Equiv.TlsGlue Gen.TlsGen.
+From NV Require Equiv.EquivTls.
+Theorem C06_code_flush_outgoing_tie : forall fuel s,
+  p_conn s = true -> p_transport s = true -> length (o_out s) < fuel ->
+  gen_flush_outgoing fuel s = (set_out s [], map PWrite (flush (o_out s)), None).
+Proof. exact EquivTls.flush_outgoing_tie. Qed.
+Print Assumptions C06_code_flush_outgoing_tie.
+
+Theorem C06_code_wrapper_write_tie : forall fuel s d,
+  p_conn s = true -> p_transport s = true -> o_out s = [] ->
+  length (concat (map frame (sendall d))) < fuel ->
+  gen_wrapper_write fuel s d = (s, map PWrite (wrapper_write d), None).
+Proof. exact EquivTls.wrapper_write_tie. Qed.
+Print Assumptions C06_code_wrapper_write_tie.
+
+Theorem C06_code_wrapper_write_tie_pending : forall fuel s d,
+  p_conn s = true -> p_transport s = true ->
+  length (o_out s ++ concat (map frame (sendall d))) < fuel ->
+  gen_wrapper_write fuel s d =
+  (set_out s [], map PWrite (flush (o_out s ++ concat (map frame (sendall d)))), None).
+Proof. exact EquivTls.wrapper_write_tie_pending. Qed.
+Print Assumptions C06_code_wrapper_write_tie_pending.
+
